@@ -4,8 +4,8 @@ CONSTANTS
   Stranger = {x1}
   MaxReq = 2
   ExpSet = {1, 2}
-  PenaltySet = {0, 1, 3}
-  DtSet = {0, 1, 3}
+  PenaltySet = {0, 2}
+  DtSet = {0, 2}
   AskSet = {1, 2}
   MinSet = {1, 2}
   ShapeSet = {"exact"}
